@@ -556,7 +556,16 @@ std::ostream& type_t::print_declaration(std::ostream& os) const
     default: kind = "type(" + std::to_string(get_kind()) + ")"; break;
     }
 
-    if (range) {
+    if (range && get(0).get_kind() == SCALAR) {
+        // a scalar set of n elements is stored as the range [0, n-1] over the scalar type
+        const auto upper = get_range().second;
+        os << "scalar[";
+        if (upper.get_kind() == MINUS && upper.get_size() == 2)
+            upper.get(0).print(os);
+        else
+            upper.print(os) << " + 1";
+        os << "]";
+    } else if (range) {
         get(0).print_declaration(os);
         if (get_range().first.get_value() != INT16_MIN || get_range().second.get_value() != INT16_MAX) {
             os << "[";
@@ -575,7 +584,10 @@ std::ostream& type_t::print_declaration(std::ostream& os) const
             index.print_declaration(os);
         os << ']';
     } else if (label) {
-        os << get_label(0);
+        if (get_label(0).rfind('#', 0) == 0)  // the generated name of an anonymous scalar set: print the set itself
+            get(0).print_declaration(os);
+        else
+            os << get_label(0);
     } else if (typeDef) {
         os << kind << " ";
         get(0).print_declaration(os) << ' ' << get_label(0);
